@@ -165,7 +165,13 @@ func runOwnPair(p *core.Program, r *core.Report, rule string) {
 				return dominatedByCondEdge(at.Parent(), isPortEq, true, at.Block())
 			}
 			if src := movedFrom(st.Val); src != nil && src != slot && samePortGuard(st) {
-				r.OK(rule, construct+" (record moved to the fd that shares the port)", p.InsPos(ins), "the record is copied from another slot on the equal edge of a comparison of the two ports")
+				// (d) only an owner has something to hand over: the record
+				// that is overwritten may be the one that owns the port
+				if movedRecordOwns(st, src, slotOf) {
+					r.OK(rule, construct+" (record moved to the fd that shares the port)", p.InsPos(ins), "the record is copied from another slot on the equal edge of a comparison of the two ports, and only when it owns a file or a channel")
+				} else {
+					r.Bad(rule, construct+" (record moved to the fd that shares the port)", p.InsPos(ins), "the ownership record of the fd being replaced is copied over the record of the fd that shares its port without a test that it owns anything: when the replaced fd merely shared the port (`echo foo >out 3>&1 3>&-`) the owner's record is wiped and the file is never closed (one descriptor leaks per evaluation)")
+				}
 				return
 			}
 			moved := false
@@ -357,4 +363,184 @@ func localFieldValue(fa *ssa.FieldAddr) (stored ssa.Value, canon ssa.Value) {
 		}
 	}
 	return nil, nil
+}
+
+// movedRecordOwns: the store that moves an ownership record is entered only
+// over true edges of tests of the File / Chan fields of the record being
+// moved (`if rec.File || rec.Chan { *other = *rec }`).
+func movedRecordOwns(st *ssa.Store, src ssa.Value, slotOf func(ssa.Value) ssa.Value) bool {
+	isOwnTest := func(v ssa.Value) bool {
+		ld, ok := v.(*ssa.UnOp)
+		if !ok || ld.Op != token.MUL {
+			return false
+		}
+		fa, ok := ld.X.(*ssa.FieldAddr)
+		if !ok {
+			return false
+		}
+		nT, f := core.FieldName(fa)
+		if nT == nil || nT.Obj().Name() != "formOwnedPort" || (f != "File" && f != "Chan") {
+			return false
+		}
+		return slotOf(fa) == src
+	}
+	blk := st.Block()
+	// climb to the block that is entered over the guard's edges: the store
+	// may share its block with the load of the record
+	for len(blk.Preds) == 1 {
+		pred := blk.Preds[0]
+		if len(pred.Instrs) > 0 {
+			if iff, ok := pred.Instrs[len(pred.Instrs)-1].(*ssa.If); ok && isOwnTest(iff.Cond) {
+				break
+			}
+		}
+		if len(pred.Succs) != 1 {
+			break
+		}
+		blk = pred
+	}
+	if len(blk.Preds) == 0 {
+		return false
+	}
+	for _, pred := range blk.Preds {
+		if len(pred.Instrs) == 0 {
+			return false
+		}
+		iff, ok := pred.Instrs[len(pred.Instrs)-1].(*ssa.If)
+		if !ok || !isOwnTest(iff.Cond) || pred.Succs[0] != blk {
+			return false
+		}
+	}
+	return true
+}
+
+// runStableRecords (C40 OWN-PAIR, clause (e) STABLE-RECORDS): the redirection
+// code keeps a pointer to the ownership record of its destination
+// (growAccess(fops, dst)) across the hand-over, which takes the record of
+// another fd with a second growAccess on the same table. growAccess
+// reallocates the table when it has to grow, and the first pointer then
+// points into the old array: what is recorded through it afterwards (the file
+// just opened is owned by the form) is lost, and the file is never closed. So
+// wherever a function of the redirection family takes a record pointer while
+// some function of the family takes another one, the table has been grown to
+// the size of the port table first: a loop `for len(*fops) < len(fm.ports)`
+// that appends dominates the first growAccess.
+func runStableRecords(p *core.Program, r *core.Report, rule string) {
+	fam := redirFamily(p)
+	if len(fam) == 0 {
+		return
+	}
+	isRecordGrow := func(ins ssa.Instruction) *ssa.Call {
+		c, ok := ins.(*ssa.Call)
+		if !ok {
+			return nil
+		}
+		callee := c.Call.StaticCallee()
+		if callee == nil || core.Origin(callee).Name() != "growAccess" {
+			return nil
+		}
+		pt, ok := c.Type().(*types.Pointer)
+		if !ok || !core.IsNamed(pt.Elem(), pkgEval, "formOwnedPort") {
+			return nil
+		}
+		return c
+	}
+	type site struct {
+		fn   *ssa.Function
+		call *ssa.Call
+	}
+	var sites []site
+	for _, fn := range fam {
+		fn := fn
+		core.Instrs(fn, func(ins ssa.Instruction) {
+			if c := isRecordGrow(ins); c != nil {
+				sites = append(sites, site{fn, c})
+			}
+		})
+	}
+	if len(sites) < 2 {
+		// a single pointer into the table: nothing can move under it
+		r.Count(rule+" record pointers taken by the redirection code", len(sites))
+		return
+	}
+	n := 0
+	for _, s := range sites {
+		// the pointer that is kept: its value is used after another call
+		// (stored through, loaded from, or passed on) - any pointer that is
+		// not dereferenced at once in the same instruction sequence
+		kept := false
+		if refs := s.call.Referrers(); refs != nil {
+			for _, ref := range *refs {
+				switch x := ref.(type) {
+				case *ssa.Store:
+					if x.Addr == ssa.Value(s.call) && x.Block() == s.call.Block() {
+						continue // *growAccess(fops, i) = v
+					}
+					kept = true
+				default:
+					kept = true
+				}
+			}
+		}
+		if !kept {
+			continue
+		}
+		n++
+		construct := core.FnKey(s.fn) + " record pointer stays valid while other records are taken"
+		if preGrown(s.fn, s.call) {
+			r.OK(rule, construct, p.InsPos(s.call), "the ownership table is grown to the size of the port table before the pointer is taken, so a later growAccess never reallocates it")
+		} else {
+			r.Bad(rule, construct, p.InsPos(s.call), "a pointer to an ownership record is kept while the hand-over takes another record with growAccess, and the table was not grown to the size of the port table first: growAccess reallocates, the kept pointer then points into the old array, and the ownership recorded through it (`{ echo foo > out } 3>&1`: the file just opened) is lost - the file is never closed")
+		}
+	}
+	r.Count(rule+" record pointers kept across another growAccess", n)
+}
+
+// preGrown: a loop whose condition compares the length of the ownership table
+// with the length of the port table, and which appends to the table,
+// dominates the call.
+func preGrown(fn *ssa.Function, call *ssa.Call) bool {
+	table := call.Call.Args[0]
+	for _, b := range fn.Blocks {
+		if len(b.Instrs) == 0 || !b.Dominates(call.Block()) {
+			continue
+		}
+		iff, ok := b.Instrs[len(b.Instrs)-1].(*ssa.If)
+		if !ok {
+			continue
+		}
+		cmp, ok := iff.Cond.(*ssa.BinOp)
+		if !ok || (cmp.Op != token.LSS && cmp.Op != token.GTR) {
+			continue
+		}
+		small, big := cmp.X, cmp.Y
+		if cmp.Op == token.GTR {
+			small, big = big, small
+		}
+		ls, lb := lenArg(small), lenArg(big)
+		if ls == nil || lb == nil {
+			continue
+		}
+		addr, ok := core.IsLoad(ls)
+		if !ok || exprKey(addr) != exprKey(table) {
+			continue
+		}
+		if !strings.HasSuffix(exprKey(lb), ".ports") {
+			continue
+		}
+		// the loop body appends to the table
+		body := b.Succs[0]
+		appends := false
+		for _, x := range body.Instrs {
+			if c, ok := x.(*ssa.Call); ok {
+				if bi, ok := c.Call.Value.(*ssa.Builtin); ok && bi.Name() == "append" {
+					appends = true
+				}
+			}
+		}
+		if appends {
+			return true
+		}
+	}
+	return false
 }
